@@ -503,6 +503,7 @@ func checkC03(R *Run) {
 		}
 	}
 	R.floor("lock-release", 40)
+	R.ruleGoNilCapture(guardedReach)
 	// cycle detection
 	{
 		cyc := ""
@@ -1163,4 +1164,157 @@ func (R *Run) ruleAcceptLoopSurvives() {
 		R.check(witness == nil, "accept-loop-survives", fname(fn), pos, "a failed Accept leads back to Accept (or the listener is closed)", "the accept loop returns after a failed Accept: ListenAndServe passes that to log.Fatal, so a transient error such as EMFILE during a connection flood terminates the server and every session")
 	}
 	R.floor("accept-loop-survives", 2)
+}
+
+// ruleGoNilCapture (C03): a goroutine started from request-handling code runs outside the connection's recover. A
+// pointer it captures that came from a lookup which answers nil for an unknown key (ClientManager.Get, AccountManager.Get,
+// FileTransferMgr.Get, a plain map lookup) and that the goroutine dereferences must have been proved non-nil before the
+// `go`: by a nil test, or by a dereference that every path to the `go` passes (which panics inside the recovered
+// connection loop instead). A nil dereference in the goroutine itself terminates the whole server.
+func (R *Run) ruleGoNilCapture(guardedReach map[*ssa.Function]bool) {
+	P := R.P
+	R.rule("go-nil-capture", "a pointer obtained from a lookup that answers nil for an unknown key and captured by a goroutine started in request-handling code is, on every path to the `go` statement, either tested against nil or dereferenced (directly, or as the receiver of a method that dereferences its receiver before anything else), so that the goroutine, which no recover protects, cannot be the first to dereference a nil")
+	mayNil := func(v ssa.Value) (string, bool) {
+		switch x := v.(type) {
+		case *ssa.Call:
+			n := calleeName(&x.Call)
+			if x.Call.IsInvoke() && x.Call.Method.Name() == "Get" {
+				if _, isPtr := x.Type().Underlying().(*types.Pointer); isPtr {
+					return n, true
+				}
+			}
+		case *ssa.Lookup:
+			if _, isPtr := x.Type().Underlying().(*types.Pointer); isPtr && !x.CommaOk {
+				return "map lookup", true
+			}
+		}
+		return "", false
+	}
+	// entryDerefs: the method dereferences its receiver in its entry block before any branch
+	entryDerefs := func(m *ssa.Function) bool {
+		if m == nil || len(m.Blocks) == 0 || len(m.Params) == 0 {
+			return false
+		}
+		recv := m.Params[0]
+		for _, ins := range m.Blocks[0].Instrs {
+			switch x := ins.(type) {
+			case *ssa.FieldAddr:
+				if x.X == ssa.Value(recv) {
+					return true
+				}
+			case *ssa.UnOp:
+				if x.Op == token.MUL && x.X == ssa.Value(recv) {
+					return true
+				}
+			}
+		}
+		return false
+	}
+	n := 0
+	for _, fn := range P.Funcs {
+		if !guardedReach[rootFn(fn)] || isClientLibrary(fn) {
+			continue
+		}
+		eachInstr(fn, func(ins ssa.Instruction) {
+			g, ok := ins.(*ssa.Go)
+			if !ok {
+				return
+			}
+			mc, ok := g.Call.Value.(*ssa.MakeClosure)
+			if !ok {
+				return
+			}
+			cl, _ := mc.Fn.(*ssa.Function)
+			if cl == nil {
+				return
+			}
+			for i, b := range mc.Bindings {
+				// the captured variable's value
+				v := b
+				var cell *ssa.Alloc
+				if a, isA := b.(*ssa.Alloc); isA {
+					cell = a
+					if val, single := singleStore(a); single {
+						v = val
+					} else {
+						continue
+					}
+				}
+				src, isMay := mayNil(stripConv(v))
+				if !isMay || i >= len(cl.FreeVars) {
+					continue
+				}
+				// does the goroutine dereference it?
+				fv := cl.FreeVars[i]
+				derefs := false
+				var vals []ssa.Value
+				if cell != nil {
+					for _, r := range *fv.Referrers() {
+						if u, isU := r.(*ssa.UnOp); isU && u.Op == token.MUL {
+							vals = append(vals, u)
+						}
+					}
+				} else {
+					vals = append(vals, fv)
+				}
+				for _, pv := range vals {
+					if pv.Referrers() == nil {
+						continue
+					}
+					for _, r := range *pv.Referrers() {
+						switch x := r.(type) {
+						case *ssa.FieldAddr:
+							derefs = true
+						case ssa.CallInstruction:
+							if len(x.Common().Args) > 0 && x.Common().Args[0] == pv && !x.Common().IsInvoke() {
+								derefs = true
+							}
+						}
+					}
+				}
+				if !derefs {
+					continue
+				}
+				n++
+				// proof before the go statement
+				same := func(x ssa.Value) bool {
+					x = stripConv(x)
+					if x == stripConv(v) {
+						return true
+					}
+					if u, isU := x.(*ssa.UnOp); isU && u.Op == token.MUL && cell != nil && u.X == ssa.Value(cell) {
+						return true
+					}
+					return false
+				}
+				proved := false
+				factEdges(fn, func(e Edge, f Fact) {
+					if f.Kind == "nil" && !f.Holds && same(f.V) && (e.To == g.Block() && len(g.Block().Preds) == 1 || edgeDominates(fn, e, g.Block())) {
+						proved = true
+					}
+				})
+				if !proved {
+					eachInstr(fn, func(j ssa.Instruction) {
+						if proved || !instrDominates(j, g) {
+							return
+						}
+						switch x := j.(type) {
+						case *ssa.FieldAddr:
+							if same(x.X) {
+								proved = true
+							}
+						case *ssa.Call:
+							if m := x.Call.StaticCallee(); m != nil && len(x.Call.Args) > 0 && same(x.Call.Args[0]) && m.Signature.Recv() != nil && entryDerefs(m) {
+								proved = true
+							}
+						}
+					})
+				}
+				R.check(proved, "go-nil-capture", fmt.Sprintf("%s: go #%d captures %s", fname(fn), nCreateIn(fn, g), fv.Name()), P.ipos(g),
+					"result of "+src+" is tested or dereferenced on every path before the goroutine starts",
+					fmt.Sprintf("the goroutine dereferences %s, the result of %s, which is nil for an unknown key, and nothing on the way to the `go` statement tests or dereferences it: the nil dereference happens in a goroutine that no recover protects and terminates the server for every user", fv.Name(), src))
+			}
+		})
+	}
+	R.floor("go-nil-capture", 1)
 }
